@@ -884,19 +884,24 @@ class tensor:
             cnt = sum(factorial(len(x)) for x in grps)
             all_diffs = np.zeros((cnt, 1))
             all_perms = np.zeros((cnt, n))
+            p_idx = 0
             for a_group in grps:
                 # Compute the permutations for this group of symmetries
-                for p_idx, perm in enumerate(permutations(a_group)):
-                    all_perms[p_idx, :] = perm
+                for perm in permutations(a_group):
+                    # Permute the modes of this group, keep the others in place
+                    full_perm = np.arange(0, n)
+                    full_perm[a_group] = perm
+                    all_perms[p_idx, :] = full_perm
 
                     # Do the permutation and record the difference.
-                    Y = self.permute(np.array(perm))
+                    Y = self.permute(full_perm)
                     if np.array_equal(self.data, Y.data):
                         all_diffs[p_idx] = 0
                     else:
                         all_diffs[p_idx] = np.max(
                             np.abs(self.data.ravel() - Y.data.ravel())
                         )
+                    p_idx += 1
 
             if return_details is False:
                 return bool((all_diffs == 0).all())
